@@ -6,7 +6,7 @@ import itertools
 import re
 
 from harness import impl
-from harness.common import rng, short
+from harness.common import quick_scale, rng, short
 from harness.gen import corpus, mutate, pyprog
 
 VOCAB = [
@@ -80,13 +80,13 @@ def build_inputs(tier):
     for n in range(1, maxlen + 1):
         for seq in itertools.product(CORE, repeat=n):
             cases.append(("seq", join(seq)))
-    nsample = 6000 if tier == "quick" else 400000
+    nsample = 6000 * quick_scale() if tier == "quick" else 400000
     for _ in range(nsample):
         n = r.randint(4, 8)
         cases.append(("seqN", join([r.choice(VOCAB) for _ in range(n)])))
     # token mutations and prefixes of valid programs
     progs = list(corpus.PY_STMTS)
-    for i in range(150 if tier == "quick" else 3000):
+    for i in range(150 * quick_scale() if tier == "quick" else 3000):
         g = pyprog.gen_program(r, maxdepth=3, nstmts=r.randint(1, 2))
         if g:
             progs.append(g[0])
@@ -110,7 +110,7 @@ def build_inputs(tier):
     # precedence boundaries: random expression/statement trees rendered WITHOUT precedence parentheses
     import ast as _ast
 
-    for i in range(1500 if tier == "quick" else 40000):
+    for i in range(1500 * quick_scale() if tier == "quick" else 40000):
         g = pyprog.G(r, fstrings=False, maxdepth=2)
         try:
             if i % 3 == 0:
@@ -172,7 +172,7 @@ def build_inputs(tier):
                 cases.append(("backslash-only-line", "\n".join(lines[:i] + ["\\"] + [ind + "  " + lines[i].lstrip()] + lines[i + 1 :])))
                 cases.append(("backslash-only-line", "\n".join(lines[:i] + [ind + "\\"] + [ind + "    " + lines[i].lstrip()] + lines[i + 1 :])))
                 break
-    for s in mutate.indent_histories(r, 400 if tier == "quick" else 20000):
+    for s in mutate.indent_histories(r, 400 * quick_scale() if tier == "quick" else 20000):
         cases.append(("indent-history", s))
     for rc in corpus.regress("C02"):
         cases.insert(0, ("regress", rc["src"]))
